@@ -349,6 +349,49 @@ Qed.
 
 End Inputs.
 
+(* ---------- the shift L^-1 u ---------- *)
+Section Shift.
+Variables (nL nD : nat) (us : list (list F)) (linv : list F).
+Hypothesis Husl : List.length us = nL.
+Hypothesis Hus : forall l, (l < nL)%N -> List.length (List.nth l us nil) = nD.
+
+Lemma fold_shift (c : nat -> F) (l : list (nat * list F)) (acc : list F) :
+  (forall k, List.In k l -> List.length k.2 = nD) -> List.length acc = nD ->
+  let r := List.fold_left (fun a (lu : nat * list F) => vadd FS a (vscale FS (snd lu) (c (fst lu)))) l acc in
+  List.length r = nD /\
+  forall d, (d < nD)%N -> List.nth d r 0 = List.nth d acc 0 + \sum_(k <- l) List.nth d k.2 0 * c k.1.
+Proof.
+  elim: l acc => [|[l' u] l IH] acc Hl Hacc /=.
+    by split=> // d _; rewrite big_nil addr0.
+  have Hu1 : List.length u = nD by apply: (Hl (l', u)); left.
+  have Ha : List.length (vadd FS acc (vscale FS u (c l'))) = nD by apply: length_map2 => //; rewrite length_vscale.
+  have [|H1 H2] := IH _ _ Ha; first by move=> k Hk; apply: Hl; right.
+  split=> // d Hd; rewrite H2 // big_cons /= addrA; congr (_ + _).
+  by rewrite /vadd nth_map2 ?Hacc ?length_vscale ?Hu1 // nth_vscale ?Hu1.
+Qed.
+
+Theorem shift_bridge (l : 'I_nL) (d : 'I_nD) :
+  List.nth d (List.nth l (compute_only_shift FS nD nL linv us) nil) 0 = (INV nL linv *m Uv nL nD us) l d.
+Proof.
+  rewrite /compute_only_shift nth_map_seq // Husl.
+  set lst := List.combine (List.seq 0 nL) us.
+  have Hl : forall k, List.In k lst -> List.length k.2 = nD.
+    move=> [l' u] /= Hin.
+    have [i [Hi Hnth]] := List.In_nth _ _ (0%N, nil) Hin.
+    rewrite List.combine_nth ?List.seq_length ?Husl // in Hnth; case: Hnth => _ <-.
+    rewrite List.combine_length List.seq_length Husl PeanoNat.Nat.min_id in Hi.
+    by apply: Hus; apply/ssrnat.ltP.
+  have Hz : List.length (vzero FS nD) = nD by rewrite /vzero List.repeat_length.
+  have [_ H] := @fold_shift (fun l' => mget FS nL linv l l') lst (vzero FS nD) Hl Hz.
+  rewrite H // /vzero List.nth_repeat add0r.
+  rewrite /lst combine_zip seq_iota (big_nth (0%N, nil)) size_zip size_iota size_length Husl minnn big_mkord.
+  rewrite !mxE; apply: eq_bigr => l' _.
+  rewrite nth_zip ?size_iota ?size_length ?Husl //= nth_iota // add0n -!nth_List !mxE.
+  by rewrite mulrC.
+Qed.
+
+End Shift.
+
 (* ---------- C10 on the model: the energy identity for the model's loop momenta ---------- *)
 Section ModelEnergy.
 Variables (nE p nD : nat).
